@@ -173,7 +173,7 @@ Section Total.
 
   (* in-cell pairs once + half the image pairs = half the total over ordered pairs *)
   Theorem score_through_total (k : Z) : (3 <= k)%Z ->
-    lj_score NumR rpowi st = Some (- (/ 2 * Tot c S Rl k) / INR (length (l_syms NumR st))).
+    lj_score NumR rpowi st = Some (- (/ 2 * Tot c S Rl k) / INR (lj_copies st)).
   Proof.
     intros Hk. rewrite (lj_score_is_infinite_lattice_sum st X rho Hwf k Hk). do 2 f_equal. f_equal.
     (* the in-cell part *)
@@ -235,8 +235,8 @@ Proof.
   rewrite (score_through_total st X rho Hwf Hlike 4) by lia.
   rewrite (score_through_total st' X rho Hwf' Hlike' 4) by lia.
   rewrite Hc, HS.
-  assert (Hlen : length (l_syms NumR st') = length (l_syms NumR st)).
-  { pose proof (Forall2_len _ _ _ Hrel) as H. unfold lj_relative in H. rewrite !positions_length in H. now symmetry. }
+  assert (Hlen : lj_copies st' = lj_copies st).
+  { pose proof (Forall2_len _ _ _ Hrel) as H. rewrite !lj_relative_length in H. now symmetry. }
   rewrite Hlen. do 2 f_equal. f_equal. f_equal.
   set (c := l_cell NumR st). set (S := l_shape NumR st).
   set (Rl := lj_relative NumR st) in *. set (Rl' := lj_relative NumR st') in *.
@@ -310,10 +310,18 @@ Proof.
 Qed.
 
 (* C03: the same crystal described from an origin moved by h - same score *)
+Definition move_site (h : R * R) (s : siteR) : siteR :=
+  @mkSite NumR (s_x NumR s + fst h) (s_y NumR s + snd h) (s_cos NumR s) (s_sin NumR s).
+
+Lemma Forall2_flat_map_map {A B} (P : B -> B -> Prop) (f : A -> list B) (phi : A -> A) (l : list A) :
+  (forall x, In x l -> Forall2 P (f x) (f (phi x))) -> Forall2 P (flat_map f l) (flat_map f (map phi l)).
+Proof.
+  induction l as [|x l IH]; intros H; cbn [flat_map map]; [constructor|].
+  apply Forall2_app; [apply H; now left|apply IH; intros; apply H; now right].
+Qed.
+
 Theorem lj_score_moved_origin (st : ljstateR) (h : R * R) (X rho : R) :
-  let st' := mkLjstate (l_syms NumR st)
-               (@mkSite NumR (s_x NumR (l_site NumR st) + fst h) (s_y NumR (l_site NumR st) + snd h)
-                             (s_cos NumR (l_site NumR st)) (s_sin NumR (l_site NumR st)))
+  let st' := mkLjstate (l_syms NumR st) (map (move_site h) (l_sites NumR st))
                (l_cell NumR st) (l_shape NumR st) in
   like (l_shape NumR st) -> lj_wf st X rho -> lj_wf st' X rho ->
   (forall sym, In sym (l_syms NumR st) -> fixes_mod_lattice sym h) ->
@@ -321,7 +329,8 @@ Theorem lj_score_moved_origin (st : ljstateR) (h : R * R) (X rho : R) :
 Proof.
   intros st' Hlike Hwf Hwf' Hfix.
   apply (lj_score_origin_shift st st' h X rho); try reflexivity; try assumption.
-  unfold lj_relative, st'. cbn [l_syms l_site]. rewrite !positions_map.
+  unfold lj_relative, st'. cbn [l_syms l_sites].
+  apply Forall2_flat_map_map. intros site _. rewrite !positions_map.
   apply Forall2_map_same. intros sym Hs. apply placement_moved; [|now apply Hfix].
   pose proof (lw_syms _ _ _ Hwf) as Hrow. rewrite Forall_forall in Hrow. now apply Hrow.
 Qed.
